@@ -49,6 +49,7 @@ type Engine struct {
 	cpuSem     chan struct{}
 	noFacts    bool
 	debugPicks bool
+	sleepSets  bool
 }
 
 func (e *Engine) fnStat(fn *ssa.Function) *fnStat {
@@ -121,7 +122,7 @@ func loadEngine(repoDir, harnessDir string) (*Engine, error) {
 	e := &Engine{prog: prog, pkg: spkgs[0], fset: pkgs[0].Fset, repoDir: repoDir,
 		maxSteps: 3_000_000, maxSymBranches: 3000, maxConcretize: 64,
 		fnStats: map[*ssa.Function]*fnStat{}, globalInit: map[string]func(*Run) Value{}, knownOpen: map[string]bool{},
-		overlayFiles: ofiles}
+		overlayFiles: ofiles, sleepSets: os.Getenv("VERIF_NO_SLEEPSETS") == ""}
 	e.loadTime = time.Since(t0)
 	return e, nil
 }
